@@ -433,6 +433,7 @@ class RichGen:
         self.opts = dict(bad_refs=bad_refs, ciphertexts=ciphertexts, providers=providers, nonobject_inputs=nonobject_inputs,
                          faulty=faulty)
         self.nimports = rng.below(3) if nimports is None else nimports
+        self.open_keys = []
 
     def scalar(self):
         r = self.rng
@@ -458,7 +459,10 @@ class RichGen:
         if k == 3:
             return self.secret(env)
         if k == 4 and names:
-            return ("sym", [("name", r.choice(names))])
+            p = [("name", r.choice(names))]
+            for _ in range(r.below(3)):
+                p.append(r.choice([("name", "val"), ("name", "user"), ("idx", 0), ("idx", 1), ("key", "p"), ("name", "tok")]))
+            return ("sym", p)
         if k == 5 and self.opts["bad_refs"]:
             return ("sym", [("name", r.choice(["nope", "missing"]))] + ([("name", "x")] if r.chance(1, 2) else []))
         if k == 6:
@@ -468,13 +472,20 @@ class RichGen:
         if k == 8 and names:
             return norm_interp([("pre-", [("name", r.choice(names))]), ("-post", None)])
         if k == 9:
-            return ("join", ("str", ","), ("arr", [self.value(env, names, 0) for _ in range(r.below(3))]))
+            # delimiter: literal, reference, or a (known) secret; elements may be unknown (dangling, provider output, bad ciphertext)
+            d = r.below(5)
+            delim = ("str", ",") if d < 2 else (self.secret(env) if d == 2 else
+                                                 (("sym", [("name", r.choice(names))]) if names else ("str", "::")))
+            elems = [self.value(env, names, 0 if r.chance(2, 3) else 1) for _ in range(r.below(4))]
+            return ("join", delim, ("arr", elems))
         if k == 10:
             return ("tojson", self.value(env, names, depth - 1))
         if k == 11:
             return ("tostring", self.value(env, names, depth - 1))
         if k >= 12 and self.opts["providers"]:
-            return self.open(env, names, depth - 1)
+            e = self.open(env, names, depth - 1)
+            self.open_keys.append(None)
+            return e
         return self.scalar()
 
     def open(self, env, names, depth):
@@ -528,7 +539,10 @@ class RichGen:
             spec = {"in": in_s, "out": "always", "beh": "echo"}
         else:
             const = gen_const_output(r)
-            spec = {"in": in_s, "out": out_schema_of(const) if r.chance(2, 3) else "always", "beh": "const", "const": const}
+            o = r.below(8)
+            out_s = out_schema_of(const) if o < 4 else "always" if o < 6 else r.choice(
+                ["array", "object", {"t": "array", "prefix": ["string"]}, {"t": "object", "props": {"val": "string"}}])
+            spec = {"in": in_s, "out": out_s, "beh": "const", "const": const}
         if not (self.opts["faulty"] and r.chance(1, 15)):
             self.provs[pname] = spec
         site["literal_inputs"] = literal_inputs
